@@ -2,7 +2,115 @@
 import cluster_check as cc
 import clusterlib as cl
 
-LABELS = ['C13.Airtight', 'C13.NoTraffic', 'C13.Reciprocal', 'C07.InstanceGraph', 'C07.LocalIsolated']
+LABELS = ['C13.Airtight', 'C13.NoTraffic', 'C13.Reciprocal', 'C13.OnlyAdmitted', 'C07.InstanceGraph',
+          'C07.LocalIsolated']
+
+
+def injection_scenarios(tier, seed, tail):
+    """Adversarial messages handed to the real listener of n1 (SupervisorListener.on_remote_event, real JSON path):
+    every publication / notification kind x claimed origins (exact identifier, nick only, nick in both fields, host
+    name based identifier, wrong address) from (a) a peer n1 holds ISOLATED - nothing may change (Airtight) - and
+    (b) a peer that has not passed the handshake (STOPPED / CHECKING / FAILED at n1) for process state (normal and
+    forced), removal and disability events - no process view may change (OnlyAdmitted)."""
+    import json
+    from recorder import Driver, full_snapshot
+    from supervisor import events
+    RULES = ('<?xml version="1.0" encoding="UTF-8" standalone="no"?><root><application name="app"><programs>'
+             '<program name="p"><identifiers>*</identifiers></program></programs></application></root>')
+    cfg = cl.Config(n=3, auto_fence=True, sync=('LIST', 'TIMEOUT'))
+    traces, recs = [], {}
+    k = 0
+
+    def proc_snapshot(c, n):
+        snap = full_snapshot(c, n)
+        return {kk: vv for kk, vv in snap.items() if kk.startswith('inner:') or kk in
+                ('get_all_process_info', 'get_all_applications_info', 'get_conflicts')}
+
+    def origins(c, peer):
+        node = c.nodes[peer]
+        ip, port = f'10.0.0.{node.host}', node.port
+        return [[node.identifier, peer, [ip, port]], ['', peer, [ip, port]], [peer, peer, [ip, port]],
+                [f'node{node.host}:{port}', peer, [ip, port]], [node.identifier, peer, ['10.9.9.9', port]],
+                [node.identifier, 'nX', [ip, port]]]
+
+    def messages(c, peer):
+        ident = c.nodes[peer].identifier
+        pev = {'identifier': ident, 'nick_identifier': peer, 'name': 'p', 'group': 'app', 'state': 20, 'now': 1.7e9,
+               'now_monotonic': 99999.0, 'pid': 4242, 'expected': True, 'spawnerr': '', 'extra_args': '',
+               'disabled': False}
+        forced = dict(pev, state=200, forced=True, spawnerr='spoof')
+        sm = {'identifier': ident, 'nick_identifier': peer, 'now_monotonic': 99999.0, 'fsm_statecode': 4,
+              'fsm_statename': 'OPERATION', 'degraded_mode': False, 'discovery_mode': False,
+              'master_identifier': ident, 'starting_jobs': False, 'stopping_jobs': False,
+              'instance_states': {c.nodes[x].identifier: 'RUNNING' for x in c.nodes}}
+        pubs = [('TICK', [0, {'when': 1.7e9, 'when_monotonic': 99999.0, 'sequence_counter': 777}]),
+                ('PROCESS', [1, pev]), ('PROCESS_FORCED', [1, forced]),
+                ('PROCESS_REMOVED', [3, {'name': 'p', 'group': 'app'}]),
+                ('PROCESS_DISABILITY', [4, dict(pev, disabled=True)]), ('STATE', [7, sm])]
+        nots = [('AUTH', [1, {'authorization': 1, 'now_monotonic': 99999.0}]), ('NSTATE', [2, sm]),
+                ('ALL_INFO', [3, [dict(pev, start=1, stop=0, description='x', statename='RUNNING', uptime=1,
+                                       start_monotonic=1.0, stop_monotonic=0.0, program_name='p', process_index=0,
+                                       has_stdout=False, has_stderr=False, startsecs=1, stopwaitsecs=1)]]),
+                ('FAILURE', [5, None])]
+        return pubs, nots
+
+    for situation in ('isolated', 'stopped', 'checking'):
+        c = cl.make_cluster(cfg, programs=[{'name': 'p', 'groups': ['app']}], rules_xml=RULES)
+        d = Driver(c)
+        try:
+            for n in c.nodes:
+                d.boot(n)
+            for _ in range(8):
+                d.fair_round()
+            d.rpc('n2', 'startProcess', 'app:p', False, ns='supervisor')
+            for _ in range(3):
+                d.fair_round()
+            d.crash('n3')
+            for _ in range(5):
+                d.fair_round()
+            want = {'isolated': 'ISOLATED', 'stopped': 'ISOLATED', 'checking': 'ISOLATED'}[situation]
+            # (b) uses n2 as the non-admitted peer of a fresh observer: n1 restarted sees n2 STOPPED / CHECKING
+            if situation != 'isolated':
+                d.crash('n1')
+                d.boot('n1')
+                if situation == 'checking':
+                    d.tick('n1')
+                    d.drain(only=lambda pr: pr == ('n1', 'n1'))
+                    d.tick('n1')
+                    d.tick('n2')
+                    d.drain(only=lambda pr: pr == ('n2', 'n1'))      # n1 holds n2 in CHECKING (handshake pending)
+                peer = 'n2'
+            else:
+                peer = 'n3'
+            state = d.rec.observe('n1')['inst'].get(peer)
+            expect = {'isolated': 'ISOLATED', 'stopped': 'STOPPED', 'checking': 'CHECKING'}[situation]
+            if state != expect:
+                raise cc.MachineryFailure(f'C13 injection harness: n1 sees {peer} {state}, wanted {expect}')
+            pubs, nots = messages(c, peer)
+            msgs = [('P', x) for x in pubs] + [('N', x) for x in nots]
+            for typ, (label, body) in msgs:
+                for origin in origins(c, peer):
+                    before = full_snapshot(c, 'n1')
+                    pbefore = proc_snapshot(c, 'n1')
+                    d.rec.begin('Inject', 'n1', '', f'{label}')
+                    with c.enter('n1'):
+                        ev = events.RemoteCommunicationEvent('SupvisorsPublication' if typ == 'P' else 'SupvisorsNotification',
+                                                             json.dumps([origin, body]))
+                        c.nodes['n1'].supvisors.listener.on_remote_event(ev)
+                    c.after_step('n1')
+                    after = full_snapshot(c, 'n1')
+                    pafter = proc_snapshot(c, 'n1')
+                    process_kind = label.startswith('PROCESS') or label == 'ALL_INFO'
+                    d.rec.end({'iso': situation == 'isolated', 'snapchg': before != after,
+                               'nonadm': situation != 'isolated' and process_kind and situation != 'checking'
+                               or (situation == 'checking' and label.startswith('PROCESS')),
+                               'procchg': pbefore != pafter})
+        finally:
+            c.close()
+        traces.append(cl.mon_trace(k, d.rec, cfg, False, False))
+        recs[k] = d.rec
+        k += 1
+    return [(cfg, traces, recs)]
 
 
 def main(tier, seed, replay=None):
@@ -22,8 +130,11 @@ def main(tier, seed, replay=None):
            cl.Config(n=3, slow=[(3, 1), (3, 2)], mismatch=(3,), crash=1, restart=1, sync=('LIST', 'TIMEOUT'))]
     rnd = [cl.Config(n=3, crash=2, restart=2, cut=2, **fence),
            cl.Config(n=3, crash=1, restart=1, cut=1, mismatch=(2,), sync=('LIST', 'TIMEOUT')),
+           cl.Config(n=3, crash=1, restart=1, mismatch=(3,), mm_opt='auto_fence', sync=('LIST', 'TIMEOUT')),
+           cl.Config(n=3, crash=1, restart=1, mismatch=(1,), mm_opt='conciliation_strategy', sync=('LIST',)),
+           cl.Config(n=3, crash=1, restart=1, mismatch=(2,), mm_opt='supvisors_failure_strategy', sync=('LIST',)),
            cl.Config(n=4, crash=2, restart=2, cut=2, **fence)]
     return cc.run('C13', tier, seed, LABELS, [], e1, [], ['StepsC13', 'StepsC07'], sim, rnd,
-                  n_beh=48 if q else 400, beh_depth=150, n_rnd=40 if q else 400, rnd_steps=300,
-                  e1_timeout=600 if q else 2400, inject=True,
+                  n_beh=48 if q else 400, beh_depth=150, n_rnd=24 if q else 300, rnd_steps=300,
+                  e1_timeout=600 if q else 2400, inject=True, extra_scenarios=[injection_scenarios],
                   notes=['"only admitted peers feed process events" is decided with C12 (Replica)'])
